@@ -21,7 +21,7 @@ func init() {
 			"R-C08-3 terminate is the server terminator's method, terminator.set stores isTerminal(sig), isTerminal is `s != SIGHUP` (unix) / true (windows), Signals() includes SIGHUP on unix; " +
 			"R-C08-4 every exit of schedule() waits for the scheduled-task group first, the error arm cancelling before waiting; " +
 			"R-C08-5 a transmission in flight when the scheduler stops is awaited before schedule() returns: either the group's Wait provably waits for running tasks (decided on the library's own SSA: every returning path passes through WaitGroup.Wait) or a reader/writer barrier exists (workers hold an RWMutex for reading around the transmission and re-check the context, every exit write-locks it); " +
-			"R-C08-6 every send of a request to the scheduler is an arm of a blocking select with ctx.Done(); task closures are followed through factories to the Delay call",
+			"R-C08-6 every send of a request to the scheduler is an arm of a blocking select with ctx.Done(); task closures are followed through factories to the Delay call; R-C08-4 also: every schedgroup Delay/Schedule call is made by a named function or a closure that is only ever called directly, never from a function value that may itself run as a task (Delay after Wait panics)",
 		Assumptions: []string{
 			"Go type checker and go/ssa construction are correct",
 			"sync.RWMutex and sync.WaitGroup behave as documented",
